@@ -591,6 +591,8 @@ def r11_callers_hand_over_the_differentiated_tensors(repo: Repo, rep):
         if ".utils." not in fi.module.name:
             continue
         calls = {}  # name -> argument of the call that produced it
+        from ..util import deref, single_defs
+        tmp = {k: v for k, v in single_defs(fi.node).items() if isinstance(v, ast.Call) and dump(v.func) == "Points.from_coordinates"}  # the model input bound to a temporary first
         for a in ast.walk(fi.node):
             if isinstance(a, ast.Assign) and len(a.targets) == 1 and isinstance(a.targets[0], ast.Name) and isinstance(a.value, ast.Call) and len(a.value.args) == 1 and not a.value.keywords:
                 calls[a.targets[0].id] = a.value.args[0]
@@ -601,7 +603,7 @@ def r11_callers_hand_over_the_differentiated_tensors(repo: Repo, rep):
             outs = [v for v in stars if isinstance(v, ast.Attribute) and v.attr == "coordinates" and isinstance(v.value, ast.Name) and v.value.id in calls]
             if len(outs) != 1:
                 continue
-            arg = calls[outs[0].value.id]
+            arg = deref(calls[outs[0].value.id], tmp)
             rest = [v for v in stars if v is not outs[0]]
             n += 1
             rep.saw(fi)
